@@ -56,7 +56,13 @@ def full(c, ov):
     return M.full_meaning(M.core_from_ir(c), env=ov)
 
 
-def check_legal(c, ov, expect, tag, fails, counters):
+def full_keeping_subcircuits(c, ov):
+    """Everything expanded but the subcircuit blocks: their repetition counts are part of the meaning until
+    expand_subcircuits (which documents that it drops them) has been applied."""
+    return M.meaning(M.core_from_ir(c), expand_macros=True, env=ov or {}, resolve=True, expand_sub=False)
+
+
+def check_legal(c, ov, expect, tag, fails, counters, expect_ns=None):
     """generate -> parse -> same full meaning."""
     o = lib.outcome(lib.generate, c)
     if o[0] != "ok":
@@ -75,6 +81,13 @@ def check_legal(c, ov, expect, tag, fails, counters):
         return
     if not M.tree_equal(expect, got):
         fails.append((tag + ":reparsed-meaning-differs", {"diff": M.first_diff(expect, got), "text": t}))
+    elif expect_ns is not None:
+        try:
+            got_ns = full_keeping_subcircuits(o2[1], ov)
+        except (M.MeaningError, M.OracleError):
+            return
+        if not M.tree_equal(expect_ns, got_ns):
+            fails.append((tag + ":reparsed-meaning-differs:subcircuit-count", {"diff": M.first_diff(expect_ns, got_ns), "text": t}))
 
 
 def judge(case):
@@ -98,6 +111,7 @@ def judge(case):
         kc = M.core_from_ir(c)
         M.validate(kc, ov)
         expect = M.full_meaning(kc, env=ov)
+        expect_ns = M.meaning(kc, expand_macros=True, env=ov or {}, resolve=True, expand_sub=False)
     except M.MeaningError as ex:
         return "skipped:no-reference-meaning:" + ex.kind, [], {}
     except M.OracleError as ex:
@@ -123,6 +137,12 @@ def judge(case):
             if not M.tree_equal(expect, got):
                 fails.append(("meaning-changed-by:%s" % p, {"after": done, "diff": M.first_diff(expect, got)}))
                 return "ok", fails, counters
+            if "S" not in done:
+                got_ns = full_keeping_subcircuits(y, ov)
+                counters["subcounts"] = counters.get("subcounts", 0) + 1
+                if not M.tree_equal(expect_ns, got_ns):
+                    fails.append(("subcircuit-count-changed-by:%s" % p, {"after": done, "diff": M.first_diff(expect_ns, got_ns)}))
+                    return "ok", fails, counters
         except M.MeaningError as ex:
             fails.append(("result-has-no-meaning:%s:%s" % (p, ex.kind), {"after": done, "error": str(ex)}))
             return "ok", fails, counters
@@ -146,7 +166,7 @@ def judge(case):
                                                             "twice": tz[1] if tz[0] == "ok" else None}))
             elif ty[0] == "ok" and tz[0] == "ok" and ty[1] != tz[1]:
                 fails.append(("not-idempotent:%s:text" % p, {"after": done, "once": ty[1], "twice": tz[1]}))
-        check_legal(y, ov, expect, "after-%s" % p, fails, counters)
+        check_legal(y, ov, expect, "after-%s" % p, fails, counters, expect_ns if "S" not in done else None)
         if fails:
             return "ok", fails, counters
         x = y
@@ -278,6 +298,7 @@ def process(ctx, case, seen):
         rec.count("seq-len-%d" % len(case["seq"]))
         rec.count("idempotence-checked", counters.get("idem", 0))
         rec.count("reparse-checked", counters.get("reparse", 0))
+        rec.count("results-compared-with-subcircuit-counts-kept", counters.get("subcounts", 0))
     for clause, detail in fails:
         key = (clause, tuple(sorted(f)))
         seen[key] = seen.get(key, 0) + 1
